@@ -379,6 +379,13 @@ impl ResidencyPage {
             }
             let mut arr = [0u8; RESIDENCY_ENTRY_SIZE];
             arr.copy_from_slice(&data[offset..offset + RESIDENCY_ENTRY_SIZE]);
+
+            // The guard protects bytes 4..37 of the entry as stored: a mismatch means
+            // a torn or corrupted entry, which ends the valid part of the page.
+            if ResidencyEntry::compute_hash_guard(&arr) != hash_flags {
+                break;
+            }
+
             entries.push(ResidencyEntry::from_bytes(&arr));
             offset += RESIDENCY_ENTRY_SIZE;
         }
